@@ -68,7 +68,7 @@ class Ctx:
         self.pc = list(assumptions)
         self.new_alternatives = []
         self.solver = z3.Solver()
-        self.solver.set("timeout", 300)
+        self.solver.set("timeout", int(os.environ.get("VERIF_PRUNE_MS", "120")))
         for a in assumptions:
             self.solver.add(a)
         self.queries = 0
@@ -257,6 +257,10 @@ def discharge(pc, goal, timeout=20, quick=1.0):
     if z3.is_true(g):
         return dict(status="unsat", solver="simplify", model=None, seconds=0.0)
     asserts = _with_axioms(pc, goal)
+    if uses_abstraction(asserts):
+        # z3 sees case mapping / replace_all as uninterpreted: it can only ever answer unsat here, and usually times
+        # out on such queries - give it a short try, the native encoding goes to cvc5
+        quick = min(quick, 0.15)
     r, s, dt = run_z3(asserts, quick)
     if r == "unsat":
         return dict(status="unsat", solver="z3", model=None, seconds=time.time() - t0)
